@@ -179,6 +179,8 @@ def _check(prop, cfg, tier, seed, scratch, t0):
             R.log(ur.fatal)
             continue
         for a in ur.attributed:
+            if prop in (a.get('undecided_props') or []):
+                undecided.append('unit %s: a step of the proof script of %s failed (%s); reported under %s, undecided for %s' % (uname, a['fn'], a['message'][:80], ','.join(a['props']), prop))
             if a['kind'] == 'other':
                 undecided.append('unit %s: rustc/verus rejected the spliced text: %s at %s' % (uname, a['message'][:200], a['where']))
                 R.log(a['rendered'])
